@@ -175,11 +175,26 @@ package gomavlib
 //@   modifies ghost:log, *cp.endpoint
 
 //@ func (*endpointUDPBroadcast).provide returns (label, conn, err)
-//@   requires e != nil
+//@   ghostlog (*gomavlib.endpointUDPBroadcast).label
+//@   requires e != nil && e.node != nil
 //@   ensures  (err == nil && conn != nil) || (err == errTerminated && conn == nil)
-//@   modifies *e
-//@   trusted
-//@   assumes  the broadcast endpoint provides one channel and then waits for termination; its provide() is not verified here
+//@   ensures  [writes-bounded-by-the-node-write-timeout] err == nil && dynIs(conn, "*gomavlib.wrappedPacketConn") &&
+//@              conn.(*wrappedPacketConn).writeTimeout == e.node.WriteTimeout && conn.(*wrappedPacketConn).pc == e.pc &&
+//@              conn.(*wrappedPacketConn).broadcastAddr == e.broadcastAddr
+//@   modifies ghost:log
+
+//@ func (*wrappedPacketConn).Write returns (n, err)
+//@   requires r != nil && r.pc != nil
+//@   ensures  [armed-first] logLen() >= 1 && logCallee(0, "net.Conn.SetWriteDeadline") && logDeadlineFresh(0, r.writeTimeout)
+//@   ensures  [deadline-error] logErr(0) != nil ==> logLen() == 1 && n == 0 && err == logErr(0)
+//@   ensures  [then-one-datagram-to-the-broadcast-address] logErr(0) == nil ==> logLen() == 2 && logCallee(1, "net.Conn.WriteTo") &&
+//@              logArg(1, 1) == any(r.broadcastAddr) && n == logRet(1) && err == logErr(1)
+//@   modifies ghost:log
+
+//@ func (*wrappedPacketConn).Read returns (n, err)
+//@   requires r != nil && r.pc != nil
+//@   ensures  [one-datagram-no-deadline] logLen() == 1 && logCallee(0, "net.Conn.ReadFrom") && n == logRet(0) && err == logErr(0)
+//@   modifies p[:], ghost:log
 
 // ---------------------------------------------------------------- node loop: write fan-out (C11)
 
